@@ -58,10 +58,69 @@ def vary_motions(node, rng, params):
     return node
 
 
+def indep_prim2(rng, params, var="x"):
+    """parallelogram / triangle whose corners depend on the parameters INDEPENDENTLY (scaling, shearing, rhombus,
+    a moving origin), |det| >= 1/4 for all parameter values k/16 in [0, 1] (checked exactly on the whole grid the rows are drawn from) (Gen.prim2 only shifts all corners alike)"""
+    grid = [Fr(i, 16) for i in range(17)]
+    while True:
+        kind = rng.choice(["par", "par", "tri"])
+        style = rng.choice(["free", "free", "rhombus", "scale"])
+        p = rng.choice(params)
+        if style == "rhombus":       # (-a t, 0), (0, -b), (0, b): the fourth corner is (a t, 0)
+            a, b = dy(rng, 0.5, 3, 4), dy(rng, 0.5, 2, 4)
+            ox, oy = dy(rng, -1, 1), dy(rng, -1, 1)
+            e = ("+", c(Fr(1, 4)), v(p))
+            terms = [[("-", c(ox), ("*", c(a), e)), c(oy)], [c(ox), c(oy - b)], [c(ox), c(oy + b)]]
+        elif style == "scale":       # o fixed, both edges grow with the parameter
+            o = [dy(rng, -2, 2), dy(rng, -2, 2)]
+            d1 = [dy(rng, -2, 2), dy(rng, -2, 2)]
+            d2 = [dy(rng, -2, 2), dy(rng, -2, 2)]
+            f = ("+", c(Fr(1, 2)), ("*", c(dy(rng, 0.5, 2, 4)), v(p)))
+            terms = [[c(o[0]), c(o[1])], [("+", c(o[0]), ("*", c(d1[0]), f)), ("+", c(o[1]), ("*", c(d1[1]), f))],
+                     [("+", c(o[0]), ("*", c(d2[0]), f)), ("+", c(o[1]), ("*", c(d2[1]), f))]]
+        else:                        # every coordinate of every corner gets its own slope (often 0)
+            terms = []
+            for _ in range(3):
+                row = []
+                for _ in range(2):
+                    base = dy(rng, -3, 3)
+                    if rng.random() < 0.5:
+                        row.append(("+", c(base), ("*", c(dy(rng, -2, 2, 4)), v(rng.choice(params)))))
+                    else:
+                        row.append(c(base))
+                terms.append(row)
+        pfs = [PF(t) for t in terms]
+        names = sorted({x for f in pfs for x in f.vars()})
+        if not names:
+            continue
+        ok = True
+        for vals in itertools.product(grid, repeat=len(names)):
+            env = {n_: [val] for n_, val in zip(names, vals)}
+            o, c1, c2 = [f.eval(env) for f in pfs]
+            det = (c1[0] - o[0]) * (c2[1] - o[1]) - (c1[1] - o[1]) * (c2[0] - o[0])
+            if abs(det) < Fr(1, 4):
+                ok = False
+                break
+        if ok:
+            return Node(kind, var, pfs)
+
+
+def indep_corners(node, rng, params, prob=0.5):
+    """replace some parallelogram / triangle leaves (variable x) by corner-wise parameter-dependent ones"""
+    for i, kid in enumerate(node.kids):
+        if kid.kind in ("par", "tri") and kid.var == "x" and rng.random() < prob:
+            node.kids[i] = indep_prim2(rng, params, "x")
+        else:
+            indep_corners(kid, rng, params, prob)
+    return node
+
+
 def make_case(ctx, idx):
     rng = ctx.rng
-    mode = rng.choice(["solid2", "solid2", "solid2", "solid2", "solid1", "solid3", "prod", "prod", "bdry", "prim", "prim"])
+    mode = rng.choice(["solid2", "solid2", "solid2", "solid2", "solid1", "solid3", "prod", "prod", "bdry", "prim", "prim", "cornerwise", "cornerwise"])
     params = rng.choice([[], ["t"], ["t"], ["t", "D"]])
+    if mode == "cornerwise" and not params:
+        params = ["t"]
     g = Gen(rng, params=params)
     depth = rng.choice([1, 2, 2, 3, 3]) if ctx.quick else rng.choice([1, 2, 3, 3, 4])
     data_vars = []
@@ -69,6 +128,8 @@ def make_case(ctx, idx):
         node = g.solid(depth, "x")
     elif mode == "prim":
         node = g.prim(rng.choice(["x", "x", "y", "z"]))
+    elif mode == "cornerwise":
+        node = indep_prim2(rng, params, "x")
     elif mode == "solid1":
         g.allow_rotate = False
         node = g.solid(min(depth, 3), "y")
@@ -88,9 +149,16 @@ def make_case(ctx, idx):
     else:
         inner = g.solid(min(depth, 2), rng.choice(["x", "x", "y", "z"]))
         node = Node("bdry", None, [], [inner])
+    if params and mode != "cornerwise":
+        if node.kind in ("par", "tri") and node.var == "x" and rng.random() < 0.5:
+            node = indep_prim2(rng, params, "x")
+        else:
+            indep_corners(node, rng, params)
     vary_motions(node, rng, params)
     pvars = params + data_vars
-    if pvars:
+    if mode == "cornerwise":
+        k = rng.choice([2, 2, 3, 3, 1])
+    elif pvars:
         k = rng.choice([1, 1, 2, 3])
     else:
         k = rng.choice([0, 0, 1, 2])       # parameter rows may be supplied although nothing depends on them
@@ -324,7 +392,7 @@ def slim(case):
 
 def run(ctx, rep, cases=None):
     rep.rule = ("domain expressions generated from the public constructors (modes/depths/node kinds in input_distribution): primitives with "
-                "parameter-dependent shapes in both vertex orientations, union/cut/intersection, products (independent; dependent with the "
+                "parameter-dependent shapes in both vertex orientations (common shift AND corner-wise dependence: scaling, shearing, rhombus), union/cut/intersection, products (independent; dependent with the "
                 "partner's data supplied), Translate/Rotate with constant and parameter-dependent motions, boundaries; 0-3 parameter rows. "
                 "non-trivial = the expression has an operation node or depends on parameters; distinct = distinct (expression, rows)")
     tp = common.use_repo()
@@ -452,6 +520,7 @@ def run(ctx, rep, cases=None):
         if cs["k"] == 0 and finding is None:
             consumers(ctx, rep, cs, node, res, boxes[0], e, replies)
     if extras:
+        rot3_cases(ctx, rep, [make_rot3_case(ctx, 200000 + i) for i in range(ctx.scale(40, 400))])
         opaque_cases(ctx, rep)
 
 
@@ -632,12 +701,139 @@ def opaque_cases(ctx, rep):
         check("Rotate.from_angles", rt, pts, dict(box="[0,2]x[0,1]", angle=ang), tight=ext)
 
 
+# ---------------------------------------------------------------------------------------------
+# rotations of 3-D domains by explicit 3x3 matrices (the Lean expression type has the 2-D rotation only; the
+# model is `bboxRotate3` on the inner domain's box, theorem `rotate3_encloses`)
+
+PYTH = [(Fr(3, 5), Fr(4, 5)), (Fr(4, 5), Fr(-3, 5)), (Fr(5, 13), Fr(12, 13)), (Fr(-3, 5), Fr(4, 5)), (Fr(12, 13), Fr(-5, 13)),
+        (Fr(8, 17), Fr(15, 17)), (Fr(0), Fr(1)), (Fr(-4, 5), Fr(-3, 5))]
+
+
+def matmul3(A, B):
+    return [[sum(A[i][k] * B[k][j] for k in range(3)) for j in range(3)] for i in range(3)]
+
+
+def rational_rotation(rng):
+    """Rz·Ry·Rx with rational cos/sin: a general rotation, every entry rational"""
+    (c1, s1), (c2, s2), (c3, s3) = rng.choice(PYTH), rng.choice(PYTH), rng.choice(PYTH)
+    Rz = [[c1, -s1, 0], [s1, c1, 0], [0, 0, 1]]
+    Ry = [[c2, 0, s2], [0, 1, 0], [-s2, 0, c2]]
+    Rx = [[1, 0, 0], [0, c3, -s3], [0, s3, c3]]
+    return [[Fr(x) for x in row] for row in matmul3(matmul3(Rz, Ry), Rx)]
+
+
+def make_rot3_case(ctx, idx):
+    rng = ctx.rng
+    params = rng.choice([[], [], ["t"]])
+    g = Gen(rng, params=params, allow_rotate=False, allow_translate=False)
+    shape = rng.choice(["sphere", "prism", "prism", "slab"])
+    if shape == "sphere":
+        inner = g.prim3("z")
+    elif shape == "prism":
+        base = indep_prim2(rng, params, "x") if params and rng.random() < 0.5 else g.prim2("x")
+        inner = Node("prod", None, [], [base, Gen(rng, params=params).prim1("y")])
+    else:
+        inner = Node("prod", None, [], [Gen(rng, params=params).prim1("y"), g.solid(2, "x")])
+    M = rational_rotation(rng)
+    if rng.random() < 0.25:     # not only rotations: any matrix is accepted by the constructor
+        M = [[Fr(x) for x in row] for row in matmul3(M, [[dy(rng, 0.5, 2, 4), 0, 0], [dy(rng, -1, 1, 4), 1, 0], [0, 0, dy(rng, 0.5, 2, 4)]])]
+    ctr = [dy(rng, -1, 1) for _ in range(3)]
+    k = rng.choice([1, 2, 3]) if params else 0
+    rows = [{p: [str(Fr(rng.randint(0, 16), 16))] for p in params} for _ in range(max(k, 1))]
+    return dict(id=idx, mode="rot3", kind="rot3", dom=inner.describe(), pvars=params, rows=rows, k=k,
+                matrix=[[str(x) for x in row] for row in M], around=[str(x) for x in ctr])
+
+
+def rot3_cases(ctx, rep, cases):
+    tp = common.use_repo()
+    import torch
+    lines, plan = [], []
+    for cs in cases:
+        inner = geomgen.from_json(cs["dom"])
+        M = [[Fr(x) for x in row] for row in cs["matrix"]]
+        ctr = [Fr(x) for x in cs["around"]]
+        envs = [{p: [Fr(a) for a in r[p]] for p in cs["pvars"]} for r in cs["rows"]]
+        e = dict(case=cs, inner=inner, M=M, ctr=ctr, envs=envs, line=len(lines))
+        flatM = [x for row in M for x in row]
+        lines.append(f"bboxrot3 {inner.tokens()} {common.lst(envs, env_tokens)} {common.lst(flatM, common.q)} {common.lst(ctr, common.q)}")
+        cands = []
+        for i, env in enumerate(envs):
+            for pt in candidate_points(inner, env, ctx.rng, ctx.scale(10, 16)):
+                cands.append((i, pt))
+        e["cand_line"] = len(lines)
+        for i, pt in cands:
+            lines.append(f"contains {ATOL} {RTOL} {BATOL} {inner.tokens()} {env_tokens(pt)} {env_tokens(envs[i])}")
+        e["cands"] = cands
+        plan.append(e)
+    replies = common.run_driver("C18", lines)
+    for e in plan:
+        cs, inner, M, ctr = e["case"], e["inner"], e["M"], e["ctr"]
+        rep.count("mode:rot3")
+        rep.count("rot3-inner:" + inner.kind)
+        rep.count("param-rows:%d" % cs["k"])
+        model = replies[e["line"]]
+        desc = dict(expression=f"Rotate({inner.tokens()}, matrix={cs['matrix']}, around={cs['around']})", parameter_rows=cs["rows"] if cs["k"] else "none")
+        try:
+            dom = tp.domains.Rotate(inner.to_tp(tp), [[float(x) for x in row] for row in M], [float(x) for x in ctr])
+        except Exception as ex:  # noqa
+            rep.count("constructor-raised")
+            continue
+        pr = param_points(tp, torch, cs["pvars"], cs["rows"]) if cs["k"] else tp.spaces.Points.empty()
+        try:
+            box = dom.bounding_box(pr) if cs["k"] else dom.bounding_box()
+            shape = list(box.shape)
+            bx = [float(x) for x in box.reshape(-1).tolist()]
+        except Exception as ex:  # noqa
+            rep.case(dict(rot3=cs["dom"], m=cs["matrix"], c=cs["around"], rows=cs["rows"]), True, sample=dict(desc, model=model), kind="rot3")
+            rep.fail(f"bounding_box of a rotated 3-D domain raised {type(ex).__name__}: {str(ex)[:160]}", cs)
+            continue
+        rep.case(dict(rot3=cs["dom"], m=cs["matrix"], c=cs["around"], rows=cs["rows"]), True,
+                 sample=dict(desc, implementation=dict(shape=shape, values=bx), model=model), kind="rot3")
+        if shape != [6] or not all(x == x and abs(x) != float("inf") for x in bx):
+            rep.fail(f"bounding_box of a rotated 3-D domain has shape {shape} / values {bx}; expected 6 finite entries", cs)
+            continue
+        # correspondence
+        if model.startswith("flat "):
+            mv = [Fr(x) for x in model.split()[1:]]
+            tl = tol_of(mv)
+            bad = [(i, a, float(b)) for i, (a, b) in enumerate(zip(bx, mv)) if abs(a - float(b)) > tl]
+            if bad:
+                i, a, b = bad[0]
+                rep.disagree(f"drivers/C18.lean bboxrot3: entry {i} ({'min' if i % 2 == 0 else 'max'} of axis {i // 2}) differs: implementation {a!r}, model {b!r}",
+                             cs, bx, [float(x) for x in mv])
+            else:
+                rep.count("box-agrees-with-model")
+        else:
+            rep.disagree("drivers/C18.lean bboxrot3: the model rejects a call the implementation answers", cs, bx, model)
+        # enclosure oracle: exact member points of the inner domain, rotated exactly
+        worst, n_in = None, 0
+        tl = tol_of(bx)
+        for j, (i, pt) in enumerate(e["cands"]):
+            if replies[e["cand_line"] + j].split()[0] != "1":
+                continue
+            n_in += 1
+            q_ = flat_point(inner, pt)
+            img = [sum(M[a][b] * (q_[b] - ctr[b]) for b in range(3)) + ctr[a] for a in range(3)]
+            for ax in range(3):
+                out = max(bx[2 * ax] - float(img[ax]), float(img[ax]) - bx[2 * ax + 1])
+                if out > tl and (worst is None or out > worst[0]):
+                    worst = (out, ax, i, q_, img)
+        rep.count("member-points-checked", n_in)
+        if worst is not None:
+            out, ax, i, q_, img = worst
+            rep.fail(f"a point of the rotated 3-D domain lies outside the returned bounding box: axis {ax} of the box is "
+                     f"[{bx[2*ax]:.6g}, {bx[2*ax+1]:.6g}] but the image {[float(x) for x in img]} of the inner point {[float(x) for x in q_]} "
+                     f"(exact membership: inside, parameter row {i}) has coordinate {float(img[ax]):.6g} — {out:.3g} outside", cs)
+
+
 def replay(ctx, obj):
     rep = common.Report(ctx)
     lean = common.lean_check("C18")
     inp = (obj.get("failing_input") or obj.get("first"))["input"]
     if inp.get("kind") == "opaque":
         opaque_cases(ctx, rep)
+    elif inp.get("kind") == "rot3":
+        rot3_cases(ctx, rep, [inp])
     else:
         run(ctx, rep, [slim(inp)])
     return common.finish(ctx, rep, lean)
